@@ -1282,6 +1282,35 @@ func (ev *Env) builtinSpec(name string, argEs []Expr) (T, bool) {
 		vc.decl("iptr", "(declare-fun iptr (Int Int) Int)")
 		vc.regHeap("G_held", ghostSorts["G_held"])
 		return T{fmt.Sprintf("(select %s (iptr %s %d))", vc.heapGet(ev.st, "G_held"), base.S, index[0]), "Bool", boolT}, true
+	case "tr":
+		// tr(k): always true; exists to be used as an explicit quantifier trigger "{tr(k)}" where the natural
+		// terms are arithmetic (positions in a byte stream) and make poor E-matching patterns
+		vc.decl("trig", "(declare-fun trig (Int) Bool)")
+		vc.decl("trig_ax", "(assert (forall ((x Int)) (! (trig x) :pattern ((trig x)))))")
+		return T{fmt.Sprintf("(trig %s)", arg(0).S), "Bool", boolT}, true
+	case "wrote":
+		// wrote(w, q): byte q of everything written to w so far
+		vc.regHeap("G_wbytes", ghostSorts["G_wbytes"])
+		return T{fmt.Sprintf("(select (select %s %s) %s)", vc.heapGet(ev.st, "G_wbytes"), arg(0).S, arg(1).S), "Int", intT}, true
+	case "u16", "u32", "u64":
+		// the unsigned integer a ByteOrder decodes from these bytes (uninterpreted; the same function is used by
+		// PutUintN and UintN, so byte order itself is abstracted)
+		n := map[string]int{"u16": 2, "u32": 4, "u64": 8}[name]
+		if len(argEs) != n {
+			stale("%s takes %d byte arguments", name, n)
+		}
+		vc.declUint(n)
+		var as []string
+		for i := range argEs {
+			as = append(as, arg(i).S)
+		}
+		return T{fmt.Sprintf("(bo.u%d %s)", n*8, strings.Join(as, " ")), "Int", intT}, true
+	case "f32bits":
+		vc.decl("math.Float32bits", "(declare-fun math.Float32bits (Real) Int)")
+		return T{fmt.Sprintf("(math.Float32bits %s)", arg(0).S), "Int", intT}, true
+	case "f32frombits":
+		vc.decl("math.Float32frombits", "(declare-fun math.Float32frombits (Int) Real)")
+		return T{fmt.Sprintf("(math.Float32frombits %s)", arg(0).S), "Real", types.Typ[types.Float32]}, true
 	case "lines":
 		return T{vc.ghostGet(ev.st, "G_lines", arg(0).S), "Int", intT}, true
 	case "written":
